@@ -274,6 +274,15 @@ func (g *Gen) other(label string, from []byte) []byte {
 	return d
 }
 
+func (g *Gen) isHolder(a []byte) bool {
+	for _, h := range g.holders {
+		if bytes.Equal(h, a) {
+			return true
+		}
+	}
+	return false
+}
+
 func (g *Gen) dest(label string, from []byte) []byte {
 	for i := 0; i < 3; i++ {
 		d := g.addr(label)
@@ -588,6 +597,32 @@ func (g *Gen) byKind(kind string) Op {
 			h := hs[g.pick("freeze-nft-h", len(hs))]
 			rcv, token = h.addr, []byte(h.suffix)
 			g.Shape = append(g.Shape, "freeze-composed-key")
+		}
+		if kind == "freeze" && g.pick("freeze-nft-in-flight", 4) == 0 {
+			// the system contract does not know where an NFT is: freezeSingleNFT may reach the account that sent it away
+			// (the refund target) or the one it is travelling to, while neither holds it - the flag then lives in a
+			// zero-value entry without metadata until the tokens (or their refund) arrive
+			var cands [][2][]byte
+			for _, msg := range m.pendingMsgs() {
+				if msg.Kind != "transfer" {
+					continue
+				}
+				for _, it := range msg.Items {
+					if it.Nonce == 0 {
+						continue
+					}
+					for _, a := range [][]byte{msg.Sender, msg.Rcv} {
+						if g.isHolder(a) {
+							cands = append(cands, [2][]byte{a, []byte(it.Suffix)})
+						}
+					}
+				}
+			}
+			if len(cands) > 0 {
+				p := cands[g.pick("freeze-in-flight-pick", len(cands))]
+				rcv, token = p[0], p[1]
+				g.Shape = append(g.Shape, "freeze-nft-in-flight")
+			}
 		}
 		return callOp(g.sysCall(g.shard(rcv), fn, rcv, token))
 	case "pause", "unpause":
